@@ -15,9 +15,12 @@ from .driver import driver
 
 PA = "dataiter/aggregate.py::"
 HELPER_NAMES = ["all", "any", "count", "count_na", "count_unique", "first", "last", "nth1", "nth_m2", "min", "max", "max_keep",
-                "mode", "mean", "median", "quantile", "std", "var", "sum", "first_drop"]
-GENERIC = {"all", "any", "count", "count_na", "min", "max", "max_keep", "mean", "median", "std", "var", "sum"}
-NTH = {"first", "last", "nth1", "nth_m2", "first_drop"}
+                "mode", "mean", "median", "quantile", "std", "var", "sum", "first_drop",
+                "count_unique_drop", "quantile_keep", "mean_keep", "median_keep", "min_keep", "sum_keep", "std_keep", "var_keep", "mode_keep",
+                "last_drop", "nth1_drop"]
+GENERIC = {"all", "any", "count", "count_na", "min", "max", "max_keep", "mean", "median", "std", "var", "sum",
+           "mean_keep", "median_keep", "min_keep", "sum_keep", "std_keep", "var_keep"}
+NTH = {"first", "last", "nth1", "nth_m2", "first_drop", "last_drop", "nth1_drop"}
 
 
 def run_worker(order, use_numba, cache_dir, cache_on=True):
@@ -45,7 +48,8 @@ def close(a, b):
 
 def classify(h, first):
     """which cooperation of kernels a disagreement belongs to (so that a known finding names one class only)"""
-    fam = lambda x: ("generic(default=None)" if x in ("min", "max", "max_keep") else "generic") if x in GENERIC else "nth" if x in NTH else x
+    fam = lambda x: ("generic(default=None)" if x in ("min", "max", "max_keep", "min_keep") else "generic") if x in GENERIC else \
+        "nth" if x in NTH else "mode" if x.startswith("mode") else x
     if first is None or first == h:
         return f"{fam(h)} kernel used first"
     return f"{fam(h)} kernel after {fam(first)} kernel"
@@ -65,7 +69,7 @@ def numba_matrix(run):
     if thorough:
         orders = [[h] + [x for x in HELPER_NAMES if x != h] for h in HELPER_NAMES] + [list(reversed(HELPER_NAMES))]
     run.bound = (f"{len(orders)} orders of first use x (fresh cache, same cache re-used by a second process" +
-                 (", cache off" if thorough else "") + f") x {len(HELPER_NAMES)} helper calls x 8 grouped frames (int, float+NaN, bool, date+NaT, timedelta+NaT, unsorted, interleaved ties + one-row group, empty)")
+                 (", cache off" if thorough else "") + f") x {len(HELPER_NAMES)} helper calls (both settings of drop_na) x 8 grouped frames (int, float+NaN, bool, date+NaT, timedelta+NaT, unsorted, interleaved ties + one-row group, empty)")
     inputs = run.inputs([(o,) for o in orders])
     for (order,) in inputs:
         d = tempfile.mkdtemp(prefix="nbcache")
@@ -341,6 +345,8 @@ def _mk_group_frame(kinds, cols):
     n = len(cols[0])
     d["i"] = Vector(list(range(n)), int)
     d["v"] = Vector([float(i % 3) for i in range(n)], float)
+    d["w"] = Vector([float("nan") if i % 2 == 0 else float(i) for i in range(n)], float)      # a column with missing values
+    d["s"] = Vector(["" if i % 3 == 0 else "s%d" % i for i in range(n)], str)
     return DataFrame(**d)
 
 
@@ -389,9 +395,15 @@ def _c04_driver(name, body):
 
 def _agg_body(df, by, exp):
     got = df.copy().group_by(*by).aggregate(n=lambda x: x.nrow, ids=lambda x: "-".join(str(t) for t in x.i), m=di.mean("v"),
-                                            m2=lambda x: di.mean(x.v), c=di.count(), f=di.first("i"))
+                                            m2=lambda x: di.mean(x.v), c=di.count(), f=di.first("i"),
+                                            cw=di.count("w", drop_na=True), cw2=lambda x: di.count(x.w, drop_na=True),
+                                            cs=di.count("s", drop_na=True), cs2=lambda x: di.count(x.s, drop_na=True),
+                                            sw=di.sum("w"), sw2=lambda x: di.sum(x.w), fw=di.first("w", drop_na=True), fw2=lambda x: di.first(x.w, drop_na=True))
     obs = {c: list(got[c]) for c in got.colnames}
-    ok = got.nrow == len(exp) and got.colnames == by + ["n", "ids", "m", "m2", "c", "f"]
+    ok = got.nrow == len(exp) and got.colnames[:len(by) + 6] == by + ["n", "ids", "m", "m2", "c", "f"]
+    same_ = lambda a, b: (_is_missing(a) and _is_missing(b)) or a == b       # missing is missing (NaN in a float column, None in an object column)
+    for h in ("cw", "cs", "sw", "fw"):
+        ok = ok and all(same_(a, b) for a, b in zip(got[h], got[h + "2"]))
     for t, (k, members) in enumerate(exp):
         if not ok:
             break
